@@ -11,6 +11,9 @@ Decided here (necessary conditions, for every history at once):
   ID-load        load(storage, n): the tree built stores n in leaves_count and derives the
                  peaks from the same n; a missing peak constructs LoadError.
   WRAP           in_memory::MerkleTree::{reset,push,prove} delegate to the same inner methods.
+  ORDER-prove-lookup  prove() takes a side node from the scratch storage (joins recomputed for the current leaf
+                 count) when present and from the persistent store only otherwise: after reset / load at a smaller
+                 count the persistent store still holds nodes of the older, larger tree at scratch-only positions.
 Not decided: root/proof *values* (peak arithmetic).
 """
 import re
